@@ -126,6 +126,26 @@ func c20Api(r *rng, id string) {
 			})
 		}
 	}
+	// one sequential round of calls per lifecycle stage, compared with the stage table of the model
+	var table []string
+	probeStage := func(stage string) {
+		one := func(name string, limit time.Duration, f func() string) {
+			before := len(log)
+			call(name, limit, f)
+			mu.Lock()
+			if len(log) > before {
+				table = append(table, stage+":"+log[len(log)-1])
+			}
+			mu.Unlock()
+		}
+		one("Members", 0, func() string { return fmt.Sprint(len(m.Members())) })
+		one("NumMembers", 0, func() string { return fmt.Sprint(m.NumMembers()) })
+		one("LocalNode", 0, func() string { return m.LocalNode().Name })
+		one("GetHealthScore", 0, func() string { return fmt.Sprint(m.GetHealthScore()) })
+		one("ProtocolVersion", 0, func() string { return fmt.Sprint(m.ProtocolVersion()) })
+		one("UpdateNode", time.Second, func() string { return errS(m.UpdateNode(500 * time.Millisecond)) })
+		one("SendBestEffort", 0, func() string { return errS(m.SendBestEffort(peer(), []byte("x"))) })
+	}
 	stages := []string{"joined"}
 	plan := r.intn(4)
 	hungPeer := r.chance(1, 3)
@@ -152,6 +172,7 @@ func c20Api(r *rng, id string) {
 		wg.Wait()
 	}
 	par(1+r.intn(3), 6)
+	probeStage("joined")
 	if plan >= 1 && !hungPeer && r.chance(1, 3) {
 		// a peer's dead claim about this node is handled after Leave has set its flag and before Leave's
 		// own departure is processed: the accusation then carries the departure, and Leave must still
@@ -194,11 +215,13 @@ func c20Api(r *rng, id string) {
 		leftCalled = true
 		call("Leave", 2*time.Second, func() string { return errS(m.Leave(2 * time.Second)) })
 		call("Leave", 2*time.Second, func() string { return errS(m.Leave(2 * time.Second)) }) // idempotent
+		probeStage("left")
 		par(1+r.intn(2), 5)
 	}
 	if plan >= 2 {
 		stages = append(stages, "left-and-reaped")
 		time.Sleep(c.gossipDead + 6*time.Second) // the own departed record ages out and a probe pass wraps
+		probeStage("leftReaped")
 		par(1+r.intn(2), 6)
 	}
 	// final stage: shutdown, twice and concurrently with other calls
@@ -242,6 +265,11 @@ func c20Api(r *rng, id string) {
 	call("NumMembers", 0, func() string { return fmt.Sprint(m.NumMembers()) })
 	call("GetHealthScore", 0, func() string { return fmt.Sprint(m.GetHealthScore()) })
 	call("Shutdown", time.Second, func() string { return errS(m.Shutdown()) })
+	if leftCalled {
+		probeStage("leftShutdown")
+	} else {
+		probeStage("shutdown")
+	}
 	time.Sleep(time.Duration(c.awareMax)*c.probeInterval + 3*time.Second)
 	late := sut.tr.afterShutdownWrites.Load() - sentAtShutdown
 	// late > 0 only counts attempts refused by the closed transport; attempts long after Shutdown mean
@@ -267,7 +295,11 @@ func c20Api(r *rng, id string) {
 		}
 		bs = strings.Join(bads, ",")
 	}
-	emit("C20 api id=%s stages=%s calls=%d loss=%d bad=%s", id, strings.Join(stages, "+"), len(log), cl.net.loss, bs)
+	tb := "-"
+	if len(table) > 0 {
+		tb = strings.Join(table, ",")
+	}
+	emit("C20 api id=%s stages=%s calls=%d loss=%d table=%s bad=%s", id, strings.Join(stages, "+"), len(log), cl.net.loss, tb, bs)
 }
 
 func TestC20(t *testing.T) {
